@@ -348,6 +348,9 @@ func (w *c09world) apply(op c09op) {
 	case "race": // reply and cancel race
 		in := w.slots[op.slot]
 		tok, hit := w.sendReply(in, op.slot, false)
+		if w.rig.Ctrl.HasDelays() {
+			w.rig.Ctrl.Quiesce()
+		}
 		canCancel := in != nil && in.cancel != nil
 		if canCancel {
 			in.cancel()
@@ -366,6 +369,9 @@ func (w *c09world) apply(op c09op) {
 		tok, hit := w.sendReply(in, op.slot, false)
 		if hit {
 			in.outcome = append(in.outcome, "ok:"+tok)
+		}
+		if rig.Ctrl.HasDelays() {
+			rig.Ctrl.Quiesce()
 		}
 		rig.Srv.Stop()
 		w.markStopped()
@@ -557,7 +563,7 @@ func c09cases(e vt.Env, yield func(vt.Case) bool) {
 	// E2: delay-bounded schedules, racing operations included
 	rng = e.Rand("C09/E2")
 	d := e.Pick(1, 2)
-	for i := 0; i < e.Pick(60, 400); i++ {
+	for i := 0; i < e.Pick(200, 800); i++ {
 		n := 3 + rng.IntN(3)
 		h := make([]c09op, n)
 		for k := range h {
